@@ -425,6 +425,7 @@ func stepsOut(path []rtHop) string {
 // ---- hop-by-hop execution through the single-pool messages ----
 
 type replayRes struct {
+	hopFailed bool // a single hop, asked for at least one unit out, failed in the pool (not a limit of the caller)
 	ok      bool
 	class   string // on failure: limit | other
 	amount  *big.Int
@@ -454,6 +455,7 @@ func (e *rtEngine) replayIn(bctx sdk.Context, sender sdk.AccAddress, path []rtHo
 			}
 			r.entries = append(r.entries, exEntryIn(hp, x, nil, nil))
 			r.class = "other"
+			r.hopFailed = true
 			return r
 		}
 		evs := e.parseSwapEvents(nctx.EventManager().Events(), sender, true)
@@ -1523,6 +1525,13 @@ func (e *rtEngine) opRouteIn() {
 	head := fmt.Sprintf("router in %s %s %s %s %s", e.accName(sender), din, amt, minOut, stepsIn(path))
 	if err != nil {
 		cls := errClass(err)
+		if rp.hopFailed && cls == "limit" {
+			// the router asks every non-final hop for at least ONE unit out: a hop whose output rounds to zero fails with the
+			// pool's own min-amount error, which carries the same Go error value as the caller's limit; it is a failure of
+			// the hop (class other, as the model and the composition see it), not of the caller's minimum
+			cls = "other"
+			o.Count("in.err.hop-output-rounds-to-zero")
+		}
 		o.Emit(head+" "+joinOrDash(rp.entries), "err "+cls, true)
 		o.Count("in.err." + cls)
 		if rp.ok {
